@@ -15,6 +15,8 @@ var vhC01Lib = []vhC01Tpl{
 	{"base", "B[{% block b %}d{{ x }}{% endblock %}|{% block c %}c{% endblock %}]"},
 	{"mid", "{% extends 'base' %}{% block b %}m({{ parent() }}){% endblock %}"},
 	{"lib", "{% macro m(p, q='D') %}({{ p }},{{ q }}){% endmacro %}{% macro n() %}N{% endmacro %}"},
+	{"dirA/p", "PA{{ x }}"},
+	{"dirB/p", "PB{{ x }}"},
 }
 
 var vhC01Main = []vhC01Tpl{
@@ -42,16 +44,25 @@ var vhC01Main = []vhC01Tpl{
 	{"fail-func", "{% for i in xs %}{{ boomfn(i) }}{% endfor %}"},
 	{"range", "{% for i in range(1, 3) %}{{ i }}{% endfor %}{{ max(1, n) }}"},
 	{"block-loop", "{% for i in xs %}{% block r %}[{{ i }}]{% endblock %}{% endfor %}"},
+	// a sandboxed include (the engine has a security policy) and a template that uses filters the
+	// policy forbids at top level, where they are allowed: the sandbox flag must not outlive the include
+	{"sandboxed-include", "[{% include 'inc' sandboxed %}]"},
+	{"forbidden-top", "{{ x|replace('a', 'b') }}{{ n|number_format }}{{ xs|keys|length }}"},
+	// relative names inside macro bodies, in two directories
+	{"dirA/m", "{% macro m() %}{% include './p' %}{% endmacro %}{{ _self.m() }}{% include './p' %}"},
+	{"dirB/m", "{% macro m() %}{% include './p' %}{% endmacro %}{{ _self.m() }}{% include './p' %}"},
+	{"empty-branches", "{% if x %}{% else %}E{% endif %}{% for i in xs %}{% endfor %}{% if not x %}{% elseif y %}{% else %}F{% endif %}"},
 }
 
 // templates used as "what was rendered before" in histories: one per pooled-object family
-var vhC01Others = []string{"for", "include", "extends2", "import", "macro", "apply", "nested", "fail-func"}
+var vhC01Others = []string{"for", "include", "extends2", "import", "macro", "apply", "nested", "fail-func", "sandboxed-include", "dirB/m"}
 
 var vhErrBoom = errors.New("BOOM")
 
 // vhC01Engine: an engine holding the library templates and the named main templates.
 func vhC01Engine(mains ...string) *Engine {
 	e := New()
+	e.EnableSandbox(NewDefaultSecurityPolicy())
 	e.AddFilter("boom", func(v interface{}, a ...interface{}) (interface{}, error) { return nil, vhErrBoom })
 	e.AddFunction("boomfn", func(a ...interface{}) (interface{}, error) { return nil, vhErrBoom })
 	for _, t := range vhC01Lib {
@@ -107,11 +118,12 @@ func VH_C01_Repeat() {
 	name := vhC01Main[k].name
 	symTag("tpl:" + name)
 	ctx := vhC01Ctx()
+	// the reference first: a fresh engine while every pool of the process is still empty
+	fresh := vhRender(vhC01Engine(name), name, ctx)
 	e := vhC01Engine(name)
 	r1 := vhRender(e, name, ctx)
 	r2 := vhRender(e, name, ctx)
 	r3 := vhRender(e, name, ctx)
-	fresh := vhRender(vhC01Engine(name), name, ctx)
 	symCover("rendered")
 	if !r1.err {
 		symCover("rendered-ok")
@@ -130,6 +142,8 @@ func VH_C01_History() {
 	name := vhC01Main[k].name
 	ctx := vhC01CtxSmall()
 	name2 := vhC01Others[symChoice(len(vhC01Others))]
+	// the reference first: a fresh engine while every pool of the process is still empty
+	fresh := vhRender(vhC01Engine(name), name, ctx)
 	e := vhC01Engine(name, name2, "fail-filter")
 	other := vhC01Engine(name2)
 	tag := "tpl:" + name + " other:" + name2 + " hist:"
@@ -164,7 +178,6 @@ func VH_C01_History() {
 	}
 	symTag(tag)
 	got := vhRender(e, name, ctx)
-	fresh := vhRender(vhC01Engine(name), name, ctx)
 	symCover("rendered")
 	symAssert(got == fresh, "history-independent")
 }
